@@ -111,6 +111,19 @@ def handle (ws : List String) : String :=
       | .error _ => "err"
       | .ok rows => "ok " ++ showRows rows
     | _, _ => "bad-op"
+  | "nxreadc" :: nchar :: ntax :: inter :: k :: rest =>
+    if !isFlag inter then "bad-op" else
+    match nchar.toNat?, ntax.toNat?, k.toNat? with
+    | some nchar, some ntax, some k =>
+      match (rest.take k).mapM dec, parseRowsText (rest.drop k) with
+      | some taxa, some rows =>
+        match nxReadC ⟨[], [], nchar, ntax, flag inter⟩ taxa rows with
+        | .error _ => "err read"
+        | .ok m => "ok " ++ " ".intercalate (m.map (fun r => enc r.1 ++ ":" ++ ",".intercalate (r.2.map (fun w => match parseDec w with
+            | some d => let n := d.norm; s!"{if n.neg then "-" else "+"}{n.mant}e{n.exp}"
+            | none => "?"))))
+      | _, _ => "bad-op"
+    | _, _, _ => "bad-op"
   | ["dec", h] =>
     match dec h with
     | some t => match parseDec t with
